@@ -98,12 +98,18 @@ def run_behaviour(meta, steps, catalogue, check_setup=True):
 
 def resolve(s, catalogue):
     # shallow: only the parts that change are copied (the prediction is large and is left alone)
+    def hl(d):
+        if 'hx' in d:                      # explicit tokens (recorded executions)
+            return d['hx']
+        if 'hn' in d:                      # a list of field names of the token alphabet (MC_HdrEnum*)
+            return [catalogue['__tok__'][n] for n in d['hn']]
+        return catalogue[d['h']]
     if 'c' in s and isinstance(s['c'].get('h'), str):
         s = dict(s)
-        s['c'] = dict(s['c'], h=catalogue[s['c']['h']])
+        s['c'] = dict(s['c'], h=hl(s['c']))
     elif 'fs' in s and any(isinstance(f.get('h'), str) for f in s['fs']):
         s = dict(s)
-        s['fs'] = [dict(f, h=catalogue[f['h']]) if isinstance(f.get('h'), str) else f for f in s['fs']]
+        s['fs'] = [dict(f, h=hl(f)) if isinstance(f.get('h'), str) else f for f in s['fs']]
     return s
 
 
